@@ -97,3 +97,18 @@ void bad_sm_sign__second__ep_mul_sim_z(ep_t r, const ep_t p, const bn_t k, const
 	ep_norm(r, r);
 	ep_free(t); ep_free(u);
 }
+
+/* the result is stored over the second operand before that operand's x is read */
+void bad_alias_rw__second(ep_t r, const ep_t p, const ep_t q) {
+	fp_add(r->x, p->x, p->z);
+	fp_add(r->y, q->x, q->z);
+	fp_mul(r->z, r->x, r->y);
+	r->coord = p->coord;
+}
+
+void ok_alias_order(ep_t r, const ep_t p, const ep_t q) {
+	fp_add(r->y, q->x, q->z);
+	fp_add(r->x, p->x, p->z);
+	fp_mul(r->z, r->x, r->y);
+	r->coord = PROJC;
+}
